@@ -94,7 +94,7 @@ OPS = st.one_of(
     st.tuples(st.just("zc"), st.sampled_from(["same", "rotate", "add", "port", "drop-first", "move-main"])).map(list),
     st.tuples(st.just("drop"), st.sampled_from(["fin", "reset"])).map(list),
     st.tuples(st.just("dropold"), st.sampled_from(["fin", "reset"])).map(list),
-    st.just(["close"]), st.just(["shutdown"]),
+    st.just(["close"]), st.just(["shutdown"]), st.just(["stall"]),
 )
 
 
